@@ -183,12 +183,14 @@ var ghostNotifications int
 //@   modifies global(&ghostNotifications)
 
 // Recharge notification: the subscriber's bookkeeping is only touched under its lock (C09); exactly one
-// notification, naming the recharged rating group, goes to the URI the consumer registered (C12).
+// notification, naming the recharged rating group, goes to the URI the consumer registered (C12); the lock
+// is not held while the consumer is called (it may answer by sending a request for the same subscriber).
 //@ func (*Processor).NotifyRecharge [C09 C12]
 //@   entry
 //@   modifies global(&ghostNotifications), mapof(chf_context.SpecUeOf(ueId).RatingType)
 //@   assert "ue.RatingType[rg] =": [C09] verif_held(&ue.CULock)
 //@   assert "notifyUri := ue.NotifyUri": [C09] verif_held(&ue.CULock)
+//@   assert "p.SendChargingNotification(": [C09] !verif_held(&ue.CULock)
 //@   assert "p.SendChargingNotification(": [C12] notifyUri == old(specUeNotifyUri(ueId)) && len(notifyRequest.ReauthorizationDetails) == 1 && notifyRequest.ReauthorizationDetails[0].RatingGroup == rg
 //@   ensures ghostNotifications == old(ghostNotifications) || ghostNotifications == old(ghostNotifications)+1
 
